@@ -765,6 +765,27 @@ def fam_compare(res, s, v, spec, what):
             bytewise.append(show(x, s.names))
         return x
     map_terms(t, scan_atoms)
+    difference = []
+
+    def is_zero_(x):
+        x = strip_casts(x, pred=lambda ty: True)
+        return x == ('lit', __import__('fractions').Fraction(0)) or (x[0] == 'ctor' and not x[2])
+
+    def scan_diff(x):
+        if x[0] == 'b' and x[1] in ('<', '>', '<=', '>=') and (is_zero_(x[2]) or is_zero_(x[3])):
+            other = x[3] if is_zero_(x[2]) else x[2]
+            subs = []
+            map_terms(other, lambda y: (subs.append(y), y)[1] if (y[0] == 'b' and y[1] == '-' and y[2] != y[3] and all(
+                z[0] == 'p' or (z[0] == 'm' and z[1][0] == 'p') for z in (strip_casts(y[2]), strip_casts(y[3])))) else y)
+            if subs:
+                difference.append(show(x, s.names))
+        return x
+    map_terms(t, scan_diff)
+    if difference:
+        res.bad(R3, '%s tests the sign of a difference of the operands (`%s`) instead of comparing the components: for unsigned element '
+                    'types the difference wraps and is never negative, for 8/16-bit elements it leaves the type, and for infinities of '
+                    'the same sign it is inf - inf = NaN' % (what, difference[0][:120]), 'difference-compare')
+        return
     if bytewise:
         res.bad(R3, '%s compares the object representation (`%s`) instead of the component values: for floating-point elements '
                     '-0.0 == +0.0 by value but their bytes differ (and equal NaN bit patterns compare equal), so the result is not the '
@@ -1657,6 +1678,10 @@ def analyse(ctx, tu, label='', ir=None):
             n_typed += 1
             if not any(it[0] != 'ok' for it in res.items) and not getattr(res, 'vector_level', False):
                 typed_callee_check(res, s, v, tu, f, fam)
+        if level == 'typed' and (fam in ('derived function', 'fold', 'lifted functor', 'unary operator', 'comparison', 'member fold')
+                                 or fam.startswith(('binary operator (', 'compound assignment'))) and s.name not in ('madd',):
+            if not (fam.startswith('compound assignment') and not (s.ptypes[0] & s.ptypes[1])):
+                narrowing_of_components(res, tu, f, s, s.name)
         decided_by_ir(res, s, ir)
         decided = all(it[0] == 'ok' for it in res.items)
         if level == 'typed' and pat is not f:
@@ -1960,6 +1985,64 @@ R6 = 'R-C04-6'
 R7 = 'R-C04-7'
 
 
+def check_alignment(ctx, tu):
+    """R-C04-5: vec_t declares no alignment (alignof(vec4f) == 4, the padded vec3 is padded, not aligned): an aligned SIMD
+    load/store on the address of its components faults for objects at addresses that are not multiples of 16"""
+    try:
+        from rules.C06 import align_sites
+    except Exception as e:     # the helper lives in another builder's module
+        ctx.note('R-C04-5 alignment clause skipped: rules.C06.align_sites not importable (%s)' % e)
+        return 0
+    fns = [f for f in vec_h_functions(tu) if not f['dep'] and tu.body(f) is not None]
+    n = 0
+    for f, node, verdict, text in align_sites(tu, fns):
+        n += 1
+        s_ = signature(tu, f)
+        inst = '%s %s' % (s_.name, f['fty'])
+        if verdict == 'bad':
+            ctx.violation(R5, inst, text, tu.loc(node), key='%s|%s|%s|aligned-access' % (R5, VEC_H, keysig(tu, f, s_)))
+        elif verdict == 'ok':
+            ctx.ok(R5, inst, text, tu.loc(node))
+        else:
+            ctx.undecided(R5, inst, 'aligned SIMD access: %s' % text, tu.loc(node))
+    return n
+
+
+NARROW_RANK = {'float': 24, 'double': 53, 'long double': 64}
+INT_VALUE_BITS = {'char': 7, 'signed char': 7, 'unsigned char': 8, 'short': 15, 'unsigned short': 16, 'int': 31, 'unsigned int': 32,
+                  'long': 63, 'unsigned long': 64, 'long long': 63, 'unsigned long long': 64}
+
+
+def narrowing_of_components(res, tu, f, s, what):
+    """typed instances of single-type families: no component may pass through an implicit conversion to a floating type that cannot
+    represent every value of the element type (double -> float, 32/64-bit integer -> float, 64-bit integer -> double)"""
+    vp = [p for p in s.params if p['k'] == 'vec']
+    if not vp:
+        return
+    elem = vp[0]['sh']['elem']
+    need = NARROW_RANK.get(elem) or INT_VALUE_BITS.get(elem)
+    if need is None:
+        return
+    for n in tu.walk(tu.body(f)):
+        if n.get('kind') != 'ImplicitCastExpr' or n.get('castKind') not in ('FloatingCast', 'IntegralToFloating'):
+            continue
+        if tu.sd(n).get('cv') is not None:
+            continue
+        tgt = tclean(tu.sd(n).get('ct') or '')
+        ks = tu.kids(n)
+        src = tclean(tu.sd(ks[0]).get('ct') or '') if ks else ''
+        if tgt in NARROW_RANK and NARROW_RANK[tgt] < need and src == elem:
+            par = tu.par(n)
+            callee = ''
+            if par is not None and par.get('kind') in ('CallExpr',):
+                callee = (tu.sd(par).get('q') or '').split('::')[-1]
+            res.bad(R2, '%s on element type %s: the component expression `%s` is implicitly converted to %s%s (%d-bit significand < %d '
+                        'value bits): the result is not what the operation gives on the components themselves (values beyond 2^%d, '
+                        'non-dyadic doubles)' % (what, elem, tu.show(ks[0])[:60], tgt, (' by the parameter of `%s`' % callee) if callee else '',
+                                                 NARROW_RANK[tgt], need, NARROW_RANK[tgt]), 'component-narrowed')
+            return
+
+
 RKMATH_H = 'rkcommon/math/rkmath.h'
 INTEGRAL = {'char', 'signed char', 'unsigned char', 'short', 'unsigned short', 'int', 'unsigned int', 'long', 'unsigned long',
             'long long', 'unsigned long long'}
@@ -2083,6 +2166,7 @@ def run(ctx):
         nl = check_layout(ctx, tu)
         nres = check_driver_resolution(ctx, tu)
         nlerp = check_lerp(ctx, tu)
+        check_alignment(ctx, tu)
         if i == 0:
             ctx.floor(R3, nlerp, 3, 'lerp pattern + typed instantiations on vec_t operands in the driver')
         if i == 0:
